@@ -148,7 +148,8 @@ def run(ctx):
                  ("C04-R3", "entry / paired-item constructors under the right mask test"), ("C04-R4", "drain removes through the masked storage"),
                  ("C04-R5", "overwrite hands back the replaced value"), ("C04-R6", "an owner's mask is emptied only together with clean()"),
                  ("C04-R7", "parallel arrays of a storage are reset together"),
-                 ("C04-R8", "get / get_mut / shared_get_mut of a storage locate the slot the same way")]:
+                 ("C04-R8", "get / get_mut / shared_get_mut of a storage locate the slot the same way"),
+                 ("C04-R9", "membership observers (count, is_empty, mask) are computed from the mask")]:
         ctx.rule(r, t)
     ctx.exception("Drop impls of rollback guards (types every construction of which is mem::forget-ed on all normal paths; today: RemoveOnDrop in not_present_insert)",
                   "R1: the destructor only runs while unwinding between the raw insert and the forget; it undoes an insert whose mask update unwound")
@@ -165,6 +166,7 @@ def run(ctx):
         r6(ctx, facts)
         r7(ctx, facts)
         r8(ctx, facts)
+        r9(ctx, facts)
     from .. import witness
     witness.run_set(ctx, "C04", ["w10_unprotected_storage_mut_needs_unsafe", "w10_masked_storage_fields_private"])
 
@@ -497,3 +499,37 @@ def r8(ctx, facts):
                "" if ok else "get / get_mut / shared_get_mut locate the slot differently: %s - a lookup through one accessor can return another entity's component" % (
                    {m: sorted(v) for m, v in real.items()}))
     ctx.floor("C04-R8", "storages whose accessors are compared", n, 4)
+
+
+def r9(ctx, facts):
+    """membership is what the mask says: the &self observers of Storage that take no handle (count, is_empty, mask ..) compute their answer
+    from the storage's mask and from no other state of the storage.  A cached count / length kept beside the mask is second state that every
+    path - including the unwind path of clear() and of a purge - would have to keep in step; an observer reading it can disagree with
+    contains / get / joins."""
+    n = 0
+    for b in facts.bodies:
+        if b.kind == "Closure" or b.trait_item or base_ty(b.self_ty or "") != "storage::Storage" or b.vis != "Public" or b.argc != 1:
+            continue
+        if not b.ltype.get(1, "").startswith("&") or b.ltype.get(1, "").startswith("&mut"):
+            continue
+        if b.name not in ("count", "is_empty", "mask", "len"):
+            continue
+        n += 1
+        rets = b.ret_origins()
+        deps = set()
+        for o in rets:
+            deps |= set(b.deps(o)) | {o}
+        def field_of(d):
+            d = b.canon(d)          # deref(&self.data).mask == self.data.mask
+            if d[0] == "param" and d[1] == 1 and len(d[2]) >= 2 and d[2][0] == "data":
+                return d[2][1]
+            return None
+        via_mask = any(field_of(d) == "mask" for d in deps) or any(
+            d[0] == "call" and any(tb.name == "mask" and base_ty(tb.self_ty or "") == "storage::Storage" for tb in facts.targets(b.term(d[1])["callee"])) for d in deps)
+        other = sorted({field_of(d) for d in deps if field_of(d) not in (None, "mask")})
+        ok = via_mask and not other
+        ctx.ob("C04-R9", "%s is computed from the mask alone" % b.path, ok, b.loc(),
+               "" if ok else "the answer %s%s: it can disagree with contains / get / joins (e.g. after clear() unwound)" % (
+                   "does not depend on the storage's mask" if not via_mask else "also depends on other storage state",
+                   (" (fields: %s)" % other) if other else ""))
+    ctx.floor("C04-R9", "handle-less membership observers of Storage", n, 2)
